@@ -291,7 +291,7 @@ pub fn run(ctx: &mut Ctx) {
     pairs(ctx);
     ctx.more_samples(3);
     let n = ctx.nshards as u32;
-    drive(ctx, "histories", ctx.tier.pick(40_000, 1_000_000) / n, 8, 140, |ctx, bytes| {
+    drive(ctx, "histories", ctx.tier.pick(120_000, 2_000_000) / n, 8, 140, |ctx, bytes| {
         let (prog, otl) = history(bytes);
         check(ctx, "histories", "history", &prog, otl, if otl { Some("history:overwrite-then-lookup") } else { None })
     });
